@@ -202,9 +202,9 @@ pub fn run(run: &mut Run) {
     run.notes.push("full scans: all 20,480 syntactically valid strings + 0000 on every REACH(2) state; elsewhere all strings whose source square is occupied plus those of the lowest empty square".into());
     run_universes(run, &selfull, DISAGREE, &check_pos_full);
     let sel = if thorough {
-        Sel { m3: true, ep: Some(true), castle: Some(true), promo: Some(true), reach: Some(3), ..Default::default() }
+        Sel { m3: true, ep: Some(true), castle: Some(true), promo: Some(true), reach: Some(3), pin2: Some(4), ..Default::default() }
     } else {
-        Sel { m3: true, ep: Some(false), ep_spread_only: true, castle: Some(false), promo: Some(false), ..Default::default() }
+        Sel { m3: true, ep: Some(false), ep_spread_only: true, castle: Some(false), promo: Some(false), pin2: Some(2), ..Default::default() }
     };
     run_universes(run, &sel, DISAGREE, &check_pos);
     // round trips of every semilegal move (and the null refusals) on the deeper REACH tier
